@@ -40,6 +40,10 @@ func checkC08(p *Prog, r *Report) {
 	}
 	r.Rule("R8", "the per-device listing filters on the peer identity (SKI of the client feature's device), the per-feature listing on the server feature address")
 	listingRule(p, r, "R8", subMgr)
+	r.Rule("R15", "the subscription list reported to a peer is rendered entry by entry from the registry: id from the entry's Id, server address from its server feature, client address from its client feature, all of the same entry")
+	reportedListRule(p, r, "R15", subMgr, "SubscriptionManagementEntryDataType", "SubscriptionId")
+	r.Rule("R16", "the outcome of AddSubscription/RemoveSubscription is the outcome of the node-management handler: a refused request (a delete of a pair that is not subscribed) is answered with an error")
+	outcomeForwardedRule(p, r, "R16", subMgr)
 	r.Rule("R12", "the subscription list is never used as the backing array of another list (a query that filters into registry[:0] overwrites the registry)")
 	noStrayCompaction(p, ls, r, "R12", map[string]bool{"SubscriptionManager": true})
 	r.Assumes("reflect.DeepEqual and the address getters are not interpreted",
